@@ -622,7 +622,12 @@ impl PathIssueManager {
         // Broadcast issue
         self.issue_broadcast_tx.send((id, marker.clone())).ok();
 
-        if self.cache.len() >= self.max_entries {
+        if self.cache.contains_key(&id) {
+            // The issue is already cached and its marker is replaced below: drop the FIFO entry of
+            // the replaced marker, so that FIFO and cache stay in sync and neither can outgrow
+            // `max_entries`.
+            self.fifo_issues.retain(|(fifo_id, _)| *fifo_id != id);
+        } else if self.cache.len() >= self.max_entries {
             self.pop_front();
         }
 
